@@ -123,7 +123,9 @@ def many_names(ctx):
     order): the registers of different names are independent (Ordered!Independent), so every point must be accepted.
     The driver writes the projection of the run (names that did not arrive exactly once + known 32-bit colliding pairs +
     a seeded sample) and OrderedTrace.tla decides every projected name and the totals."""
-    n = ctx.pick(300000, 1500000)
+    # (the names dispatched first are revisited at the end, after all the others: the register of a name must still hold
+    # its accepted timestamp then -- 2.3 M names, more than two generations of any bounded register of 2^20 entries)
+    n = ctx.pick(2300000, 4500000)
     nsample = ctx.pick(2000, 5000)
     tf = os.path.join(ctx.out, "ord_many_events.ndjson")
     res = ctx.go_test("ord", run="^TestManyNames$", timeout=ctx.pick(900, 3000), expect_ok=False,
@@ -153,6 +155,17 @@ def many_names(ctx):
 
     def on_reject(b, i):
         ev, h = b[i], b[0]
+        if h.get("why") == "revisit" and ev["ev"] in ("end", "finp"):
+            rejected_names.append(h.get("name"))
+            calls = [e for e in b if e["ev"] == "end"]
+            sig = "register-forgot-accepted-timestamp family=many-names revisit"
+            what = ("name %r had a point accepted at ts=%s, then %d points of other names were dispatched, then the name came back: "
+                    "a point with the same timestamp was %s and a newer one was %s (a point is forwarded only if its timestamp is "
+                    "strictly greater than every timestamp accepted for its name before)" % (
+                        h.get("name"), b[1].get("ts"), tot["n"], "FORWARDED" if len(calls) > 1 and calls[1]["fwd"] else "rejected",
+                        "forwarded" if len(calls) > 2 and calls[2]["fwd"] else "rejected"))
+            ctx.violation(sig, what, dict(name=h.get("name"), events=b[:i + 1]))
+            return
         if ev["ev"] == "end":
             rejected_names.append(h.get("name"))
             sig = "first-point-of-name-rejected family=many-names"
@@ -204,6 +217,9 @@ def many_names(ctx):
     for b in name_blocks:
         w = b[0].get("why", "?").split(":")[0]
         why[w] = why.get(w, 0) + 1
+    if not ctx.violations and tot.get("revisited", 0) < 20:
+        raise Machinery("many names: only %s names were revisited" % tot.get("revisited"))
+    ctx.cov["many_names_revisited_after_all_others"] = tot.get("revisited", 0)
     ctx.cov["many_names"] = dict(names=tot["n"], forwarded=tot["fwd"], out_of_order=tot["ooo"], not_exactly_once=tot["odd"],
                                  projected=why, goroutines=tot["goroutines"], known_32bit_colliding_pairs=tot["pairs"],
                                  expected_pairs_32bit_key=round(tot["n"] ** 2 / 2.0 / 2 ** 32, 1),
@@ -463,7 +479,7 @@ def run(ctx):
     cov["rule"] = ("histories = one metric key each (with and without leading dot), 4-16 goroutines x 2-4 calls, timestamp patterns "
                    "increasing / equal / decreasing / random-in-a-range-of-5 / zeros, bases 1..2^31; every call and the final "
                    "accounting judged by OrderedTrace.tla (linearization search); non-trivial = histories with >= 2 calls in flight; "
-                   "plus the many-names run: 300 000 (quick) / 1 500 000 (thorough) distinct realistic names from 8 templates, one "
+                   "plus the many-names run: 2 300 000 (quick) / 4 500 000 (thorough) distinct realistic names (the first 40 revisited at the end with an equal and a newer timestamp) from 8 templates, one "
                    "point each, timestamps decreasing in dispatch order, 4 goroutines with disjoint name sets, judged by "
                    "OrderedTrace.tla on the projection to the names that did not arrive exactly once + 26 pairs colliding under "
                    "common 32-bit hashes + a seeded sample, and on the totals; plus the fold family: 120 (quick) / 700 (thorough) "
